@@ -13,7 +13,7 @@ import (
 func init() { Registry["C10"] = c10 }
 
 func c10(c *Ctx) {
-	c.R.Explanation = "C10: the step/termination structure and one latency precondition are decided; not the latency itself. R-step (symbolic range analysis, as C02(c)) = on the stall path of the target computation the request rises by >= 1 over the stalled request and over the old floor, and the floor is raised (offset increment). R-max = from every edge on which the stall predicate (a comparison of Fan.GetRpmAvg() with a constant) holds, every path either performs the raise or returns an exported sentinel error, and that return is reachable only across an edge establishing request >= Fan.GetMaxPwm(); UpdateFanSpeed returns the target computation's error unchanged (its handling — restore and stop — is C03 R-exit / C09 R-contain). R-lastreq = the write routine records its unmodified request in the field the stall predicate compares with (otherwise 'request unchanged' never holds for fans whose PWM map has gaps). R-poll = every path through the poll of the RPM monitor feeds a reading into the RPM average unless Fan.GetRpm itself failed (an early return on some other fault would freeze the input of the stall test). R-threshold (data flow) = for every Fan implementation whose GetRpmAvg returns, untruncated, a float field that the RPM monitor updates with util.UpdateSimpleMovingAvg (an exponential average old + (new-old)/n), the stall predicate's constant must be > 0: for n >= 2 such an average of non-negative readings that was ever positive never becomes <= 0 (it sticks at a positive denormal), so a test against a non-positive constant cannot fire within tens of polls, or ever. Not decided: the actual number of polls; pacing."
+	c.R.Explanation = "C10: the step/termination structure and one latency precondition are decided; not the latency itself. R-step (symbolic range analysis, as C02(c)) = on the stall path of the target computation the request rises by >= 1 over the stalled request and over the old floor, and the floor is raised (offset increment). R-max = from every edge on which the stall predicate (a comparison of Fan.GetRpmAvg() with a constant) holds, every path either performs the raise or returns an exported sentinel error, and that return is reachable only across an edge establishing request >= Fan.GetMaxPwm(); UpdateFanSpeed returns the target computation's error unchanged (its handling — restore and stop — is C03 R-exit / C09 R-contain). R-lastreq = the write routine records its unmodified request in the field the stall predicate compares with (otherwise 'request unchanged' never holds for fans whose PWM map has gaps). R-poll = every path through the poll of the RPM monitor feeds a reading into the RPM average unless Fan.GetRpm itself failed (an early return on some other fault would freeze the input of the stall test). R-threshold (data flow) = for every Fan implementation whose GetRpmAvg returns, untruncated, a float field that the RPM monitor updates with util.UpdateSimpleMovingAvg (an exponential average old + (new-old)/n), the stall predicate's constant must be > 0: for n >= 2 such an average of non-negative readings that was ever positive never becomes <= 0 (it sticks at a positive denormal), so a test against a non-positive constant cannot fire within tens of polls, or ever. R-raise = each floor-raising instruction reached from the stall edge (a store to the offset field, or a call that may store it) writes offset + k, k >= 1, on every path through it; a path that leaves the offset unchanged is accepted only where its branch condition implies GetMinPwm() + offset >= GetMaxPwm() (linear facts evaluated with the range analysis). Not decided: the actual number of polls; pacing."
 	c.R.Assumptions = append(c.R.Assumptions, envelopeAssumptions, "RPM readings are non-negative")
 	r := c.analyseRegulation()
 	r.ruleEnvelope("R-step", false, false, true)
@@ -130,6 +130,8 @@ func c10(c *Ctx) {
 		default:
 			c.R.Ok("R-max", fk, fk, c.P.Pos(T.Pos()), "from the stall edge every path raises the minimum or returns the exported sentinel error under request >= Fan.GetMaxPwm()")
 		}
+		// ---- R-raise: an increment reached from the stall edge raises the floor on each of its paths ----
+		r.ruleRaise("R-raise", ci, edgeStarts(stallEdges))
 		// UpdateFanSpeed returns the error unchanged
 		ev := errValueOfCall(ci.targetCall)
 		okSame := false
@@ -148,6 +150,7 @@ func c10(c *Ctx) {
 		}
 	}
 	c.R.Require("R-max", 2)
+	c.R.Require("R-raise", 1)
 
 	// ---- R-poll: every poll of the RPM monitor refreshes the average the stall test reads --------
 	npoll := 0
@@ -282,4 +285,202 @@ func c10(c *Ctx) {
 		}
 	}
 	c.R.Require("R-threshold", 3)
+}
+
+// ruleRaise: every instruction that stands for "the floor was raised" on a path from the stall edge (a store to an
+// offset field, or a call that may store one) strictly increases that field on every path through it; a path
+// that leaves the field unchanged is accepted only where its branch condition implies
+// GetMinPwm() + offsets >= GetMaxPwm() (the floor has arrived at the maximum, so the at-maximum report is next).
+// Without this the R-max argument "each stall cycle raises the floor or reports" does not terminate.
+func (r *regulation) ruleRaise(rule string, ci *cycleInfo, starts []ir.Point) {
+	c := r.c
+	T := ci.target
+	owner := recvTypeName(T)
+	isOff := func(v ssa.Value) (string, bool) {
+		u, ok := v.(*ssa.UnOp)
+		if !ok || u.Op != token.MUL {
+			return "", false
+		}
+		fa, ok := u.X.(*ssa.FieldAddr)
+		if !ok {
+			return "", false
+		}
+		o, n, _ := ir.FieldName(fa)
+		if o == nil || o.Obj().Name() != owner {
+			return "", false
+		}
+		_, is := ci.offFields[n]
+		return n, is
+	}
+	// strict: the store writes load(field) + k, k >= 1
+	strict := func(st *ssa.Store, an *ranges.An) bool {
+		fa, ok := st.Addr.(*ssa.FieldAddr)
+		if !ok {
+			return false
+		}
+		_, name, _ := ir.FieldName(fa)
+		av := an.Eval(st.Val, ir.BlockFacts(st.Block()))
+		for _, lo := range av.Lo {
+			if lo.C >= 1 && len(lo.Coef) == 1 {
+				for sym, co := range lo.Coef {
+					if n, is := isOff(sym); is && n == name && co == 1 {
+						return true
+					}
+				}
+			}
+		}
+		return false
+	}
+	storesOff := func(ins ssa.Instruction) (*ssa.Store, bool) {
+		st, ok := ins.(*ssa.Store)
+		if !ok {
+			return nil, false
+		}
+		fa, ok := st.Addr.(*ssa.FieldAddr)
+		if !ok {
+			return nil, false
+		}
+		o, n, _ := ir.FieldName(fa)
+		if o == nil || o.Obj().Name() != owner {
+			return nil, false
+		}
+		_, is := ci.offFields[n]
+		return st, is
+	}
+	// atMax: do the facts imply GetMinPwm() + offsets - GetMaxPwm() >= 0 ?
+	atMax := func(facts []ir.Fact, an *ranges.An) bool {
+		for _, f := range facts {
+			if f.X == nil || f.Y == nil || f.Via != nil {
+				continue
+			}
+			x, y := an.Eval(f.X, nil).Exact, an.Eval(f.Y, nil).Exact
+			if x == nil || y == nil {
+				continue
+			}
+			d := x.Add(*y, -1)
+			lb := 0.0
+			switch f.Op {
+			case token.GEQ, token.EQL:
+			case token.GTR:
+				lb = 1
+			case token.LEQ:
+				d = ranges.Konst(0).Add(d, -1)
+			case token.LSS:
+				d = ranges.Konst(0).Add(d, -1)
+				lb = 1
+			default:
+				continue
+			}
+			// d >= lb with d = min + offsets - max + C
+			nMin, nMax, okShape := 0, 0, true
+			for sym, co := range d.Coef {
+				if co == 0 {
+					continue
+				}
+				if call, isCall := sym.(*ssa.Call); isCall && isFanInvoke(call, "GetMinPwm") && co == 1 {
+					nMin++
+				} else if isCall && isFanInvoke(call, "GetMaxPwm") && co == -1 {
+					nMax++
+				} else if _, is := isOff(sym); is && co == 1 {
+				} else {
+					okShape = false
+				}
+			}
+			if okShape && nMin == 1 && nMax == 1 && lb-d.C >= 0 {
+				return true
+			}
+		}
+		return false
+	}
+	var raises func(fn *ssa.Function, depth int) (bad string)
+	raises = func(fn *ssa.Function, depth int) string {
+		if len(fn.Blocks) == 0 {
+			return "no body"
+		}
+		an := ranges.New(fn)
+		bad := ""
+		stop := func(ins ssa.Instruction) bool {
+			if st, is := storesOff(ins); is {
+				if strict(st, an) {
+					return true
+				}
+				if bad == "" {
+					bad = "the store at " + c.P.Pos(st.Pos()) + " does not write the field's previous value plus a positive step"
+				}
+				return true
+			}
+			if cc, ok := ins.(ssa.CallInstruction); ok && depth > 0 {
+				if _, isGo := cc.(*ssa.Go); isGo {
+					return false
+				}
+				if cal := ir.Callee(cc).Static; cal != nil && cal != fn && load_FuncPkgPath(cal) == PkgCtrl {
+					may := false
+					for name := range ci.offFields {
+						if c.mayStoreField(cal, owner, name) {
+							may = true
+						}
+					}
+					if may {
+						if b := raises(cal, depth-1); b != "" && bad == "" {
+							bad = b
+						}
+						return true
+					}
+				}
+			}
+			return false
+		}
+		for _, rv := range returnsFrom([]ir.Point{{Block: fn.Blocks[0], Idx: 0}}, ir.Search{StopInstr: stop}) {
+			if !atMax(factsAt(rv.ret.Block(), rv.via), an) && bad == "" {
+				bad = c.FK(fn) + " can return at " + c.P.Pos(rv.ret.Pos()) + " without having increased the offset, and the skipping branch does not imply GetMinPwm() + offset >= GetMaxPwm()"
+			}
+		}
+		return bad
+	}
+	an := ranges.New(T)
+	seen := map[ssa.Instruction]bool{}
+	n := 0
+	ir.Search{}.Reach(starts, func(ins ssa.Instruction, _ *ssa.BasicBlock) {
+		isInc := false
+		for _, x := range ci.incrCalls {
+			if x == ins {
+				isInc = true
+			}
+		}
+		if !isInc || seen[ins] {
+			return
+		}
+		seen[ins] = true
+		n++
+		if st, is := storesOff(ins); is {
+			key := c.FK(ins.Parent()) + "|store"
+			if strict(st, an) {
+				c.R.Ok(rule, key, c.FK(ins.Parent()), c.P.Pos(ins.Pos()), "the stall branch stores offset + k, k >= 1")
+			} else {
+				c.R.Bad(rule, key, c.FK(ins.Parent()), c.P.Pos(ins.Pos()), "the store to the floor offset in the stall branch does not write the previous value plus a positive step: the floor of a stalled fan need not rise, so neither rotation nor the at-maximum report is ever reached")
+			}
+			return
+		}
+		cc := ins.(ssa.CallInstruction)
+		for _, cal := range c.Callees(cc) {
+			may := false
+			for name := range ci.offFields {
+				if c.mayStoreField(cal, owner, name) {
+					may = true
+				}
+			}
+			if !may {
+				continue
+			}
+			key := c.FK(cal)
+			if bad := raises(cal, 3); bad != "" {
+				c.R.Bad(rule, key, c.FK(cal), c.P.Pos(ins.Pos()), "the floor-raising call in the stall branch does not raise the floor on every path ("+bad+"): a stalled fan can stay below the maximum for ever, the request oscillates and the stall is never reported")
+			} else {
+				c.R.Ok(rule, key, c.FK(cal), c.P.Pos(ins.Pos()), "every path through the floor-raising call stores offset + k (k >= 1), or skips it only where GetMinPwm() + offset >= GetMaxPwm() is established")
+			}
+		}
+	})
+	if n == 0 {
+		c.R.Undecided(rule, c.FK(T)+"|none", c.FK(T), c.P.Pos(T.Pos()), "no floor-raising instruction is reachable from the stall edge (anchor unresolved)")
+	}
 }
